@@ -1,6 +1,10 @@
 import TantivyModel.Proofs.SSTable.Refine
 import TantivyModel.Proofs.SSTable.Writer
 import TantivyModel.Proofs.SSTable.Stream
+import TantivyModel.Proofs.SSTable.OrdToTerm
+import TantivyModel.Proofs.SSTable.RangeDict
+import TantivyModel.Proofs.SSTable.DeltaScan
+import TantivyModel.Proofs.SSTable.Prune
 /-!
 # C15 — Term dictionaries behave as ordered maps from byte strings
 
@@ -121,11 +125,47 @@ theorem C15_ops_refine_term_ord_or_next {V} (blockLen : Nat) (m : Assoc V) (hs :
       (build blockLen m).termOrdOrNext k = .next U64_MAX ∧ termOrdOrNext m k = .next m.length) :=
   ⟨fun b h => refine_orn_some blockLen m hs k b h, refine_orn_none blockLen m hs k⟩
 
+/-- `ord_to_term` and `term_info_from_ord` (block found by ordinal, then `ord - first_ordinal + 1`
+advances) equal the specification for every map, block length and ordinal, incl. ordinals ≥ n -/
+theorem C15_ops_refine_ord_to_term {V} (blockLen : Nat) (m : Assoc V) (ord : Nat) :
+    (build blockLen m).ordToTerm ord = ordToTerm m ord ∧
+    (build blockLen m).valueAtOrd ord = valueAtOrd m ord :=
+  refine_ordToTerm blockLen m ord
+
+/-- `sorted_ords_to_term_cb` (one forward pass, blocks re-opened only when the next ordinal is at
+or past the end bound, repeated ordinals re-emitted) calls back with exactly the keys of the
+ordinals up to the first missing one and returns whether all exist — for every sorted list -/
+theorem C15_ops_refine_sorted_ords {V} (blockLen : Nat) (m : Assoc V) (ords : List Nat)
+    (hsorted : ords.Pairwise (· ≤ ·)) :
+    (build blockLen m).sortedOrdsToTerm ords = sortedOrdsSpec m ords :=
+  refine_sortedOrds blockLen m ords hsorted
+
 /-- the scan of one sorted block finds the first key ≥ k, exact iff equal -/
 theorem C15_block_scan (ks : List Key) (k : Key) (hs : StrictInc ks) :
     scanOrNext ks k 0 = specHit ks k ∧ (specHit ks k).exact? = ks.findIdx? (fun a => a == k) := by
   refine ⟨?_, specHit_exact ks k hs⟩
   rw [scanOrNext_spec ks k 0 hs, Hit.shift_zero]
+
+/-- `decode_up_to_or_next` as the code runs it — on the front-coded `(keep, suffix)` entries of a
+block, tracking only `ok_bytes` = number of key bytes matched so far (entry popped below `ok_bytes`
+⇒ too far; entry keeping more ⇒ still below; equal ⇒ compare the suffix) — equals the plain scan of
+the decoded keys, for every strictly increasing block and every key. Hence every block-model
+theorem above applies to the byte layout. -/
+theorem C15_delta_scan (ks : List Key) (k : Key) (hs : StrictInc ks) :
+    deltaScan k (deltaEntries [] ks) 0 0 = scanOrNext ks k 0 :=
+  deltaScan_spec k ks [] 0 0 (by rw [cpl_comm, cpl_nil_left]) (Or.inl rfl) hs (Or.inl rfl)
+
+/-- `term_ord_or_next` through the front-coded scan = through the plain scan, on the dictionary
+built from any sorted map -/
+theorem C15_delta_scan_dict {V} (blockLen : Nat) (m : Assoc V) (hs : SortedMap m) (k : Key) :
+    (build blockLen m).termOrdOrNextDelta k = (build blockLen m).termOrdOrNext k := by
+  unfold Dict.termOrdOrNextDelta Dict.termOrdOrNext
+  cases h : ((build blockLen m).locateKey k).bind (build blockLen m).blockAt with
+  | none => rfl
+  | some b =>
+    obtain ⟨pre, post, ha, _⟩ := dict_split blockLen m hs k b h
+    simp only
+    rw [C15_delta_scan _ k (ha.sortedB hs)]
 
 /-! ## streams -/
 
@@ -141,6 +181,50 @@ theorem C15_stream_scan {σ V} (A : Automaton σ) (lo hi : Bound) (ord : Nat) (x
           (fun p => (p.2, p.1.1, p.1.2)) ∧
     ((∀ k, A.accepts k = true) → scanStream lo hi false ord xs = scanSearch A lo hi false ord xs) :=
   ⟨scanSearch_filter A lo hi ord xs hs, fun hA => scanStream_eq_scanSearch A hA lo hi false ord xs⟩
+
+/-- `Dictionary::range().{ge,gt,le,lt}.limit(l).into_stream()` — file_slice_for_range (first
+block by the lower key, last block by the upper key, moved down by the limit) + Streamer — against
+the specification, for every sorted map, block length, bound kind (≥, >, ≤, <, unbounded; empty
+and inverted ranges) and limit: the streamed entries with the ordinals the streamer reports are a
+prefix of the specification range with its true ordinals; without a limit they are the whole
+range; with a limit at least `min l |range|` entries are produced. The call fails only without
+the `first_block > last_block` guard, only for inverted bounds, where the range is empty
+(known finding C15:inverted-range-across-blocks-panics). -/
+theorem C15_ops_refine_range {V} (blockLen : Nat) (m : Assoc V) (hs : SortedMap m)
+    (lo hi : Bound) (limit : Option Nat) :
+    match (build blockLen m).stream lo hi limit with
+    | some out =>
+        out <+: ((m.zipIdx 0).filter (fun p => matchLo lo p.1.1 && matchHi hi p.1.1)).map
+          (fun p => (p.2, p.1.1, p.1.2)) ∧
+        IsLimitedRange m lo hi limit (out.map (fun p => (p.2.1, p.2.2)))
+    | none => Gen.RANGE_INVERTED_GUARD ≠ 1 ∧ range m lo hi = [] ∧
+        ∃ a b, lo.key? = some a ∧ hi.key? = some b ∧ lexLt b a = true := by
+  have h := stream_refine (build_view blockLen m hs) hs lo hi limit
+  have hfull : fullStream m lo hi = ((m.zipIdx 0).filter (fun p => matchLo lo p.1.1 && matchHi hi p.1.1)).map
+      (fun p => (p.2, p.1.1, p.1.2)) := by
+    unfold fullStream streamSpec
+    congr 2; funext p; simp [allAut_accepts]
+  cases hst : (build blockLen m).stream lo hi limit with
+  | none =>
+    rw [hst] at h
+    obtain ⟨hg, hf, hab⟩ := h
+    refine ⟨hg, ?_, hab⟩
+    rw [← fullStream_range, hf]; rfl
+  | some out =>
+    rw [hst] at h
+    obtain ⟨rest, hf, hnone, hsome⟩ := h
+    simp only
+    refine ⟨⟨rest, by rw [← hfull, hf]⟩, ⟨rest.map (fun p => (p.2.1, p.2.2)), ?_⟩, ?_⟩
+    · rw [← fullStream_range, hf, List.map_append]
+    · cases limit with
+      | none =>
+        simp only
+        rw [← fullStream_range, hf, hnone rfl]; simp
+      | some l =>
+        simp only
+        rcases hsome l rfl with hr | hl
+        · rw [← fullStream_range, hf, hr]; simp; omega
+        · simp only [List.length_map]; omega
 
 /-- partial form of `C15_automaton_stream`: streaming over the blocks that survive ANY sound
 pruning (a dropped block holds no entry passing bounds and automaton) yields exactly
@@ -161,6 +245,17 @@ theorem C15_automaton_stream_partial {σ V} (A : Automaton σ) (lo hi : Bound) (
   funext e
   cases matchLo lo e.1 <;> cases matchHi hi e.1 <;> cases A.accepts e.1 <;> rfl
 
+/-- soundness of the mirrored `can_block_match_automaton` (common prefix walk, `match_range_start`,
+`match_range_end`, the 256-byte fan-outs) for EVERY automaton whose `can_match` is sound: if some
+key above the previous separator (none for the first block) and at most the block's separator is
+accepted, the block is kept. Together with `C15_block_separators` (every key of block i lies in
+`(sep (i-1), sep i]`) this discharges the `hsound` hypothesis of `C15_automaton_stream_partial` for
+the pruning the code performs. -/
+theorem C15_block_pruning_sound {σ} (A : Automaton σ) (hA : A.CanMatchSound) (prevSep : Option Key)
+    (sep key : Key) (h1 : ∀ s, prevSep = some s → lexLt s key = true) (h2 : lexLe key sep = true)
+    (hacc : A.accepts key = true) : canBlockMatch A prevSep sep = true :=
+  canBlockMatch_sound A hA prevSep sep key h1 h2 hacc
+
 /-- the ordinal misreport is a property of the mechanism, not of an input: skipping a block
 makes the scan count from the wrong base -/
 theorem C15_search_ordinal_counterexample :
@@ -171,20 +266,18 @@ theorem C15_search_ordinal_counterexample :
 /-- an inverted range whose bounds are routed two or more blocks apart makes the slice
 computation fail (`assert!(end >= start)`), where the specification is the empty stream -/
 theorem C15_inverted_range_counterexample :
-    (build 0 [(([1] : Key), 10), ([2], 20), ([3], 30)]).stream (.incl [3]) (.excl [1]) none = none ∧
+    (Gen.RANGE_INVERTED_GUARD = 0 →
+      (build 0 [(([1] : Key), 10), ([2], 20), ([3], 30)]).stream (.incl [3]) (.excl [1]) none = none) ∧
+    (Gen.RANGE_INVERTED_GUARD = 1 →
+      (build 0 [(([1] : Key), 10), ([2], 20), ([3], 30)]).stream (.incl [3]) (.excl [1]) none = some []) ∧
     range [(([1] : Key), 10), ([2], 20), ([3], 30)] (.incl [3]) (.excl [1]) = [] := by decide
 
 /- Still to prove (full statements; the harness compares these operations on every run):
-   C15_ops_refine_ord_to_term : SortedMap m → (build L m).ordToTerm ord = ordToTerm m ord
-   C15_ops_refine_range       : SortedMap m → (build L m).stream lo hi limit = some out →
-                                  IsLimitedRange m lo hi limit (out.map (fun e => (e.2.1, e.2.2)))
-                                  ∧ ordinals of `out` are the spec ordinals
-                                (`stream = none` exactly when first block > last block + 1: known
-                                 finding C15:inverted-range-across-blocks-panics)
-   C15_delta_scan             : StrictInc ks → deltaScan k (deltaEntries [] ks) 0 0 = scanOrNext ks k 0
+   C15_prefix_range           : isPrefixOf p k ↔ matchLo (prefixBounds p).1 k ∧ matchHi (prefixBounds p).2 k
    C15_automaton_stream       : A.CanMatchSound → keys/values of (build L m).search A lo hi
-                                  = search A m lo hi, i.e. `canBlockMatch` is a sound pruning in the
-                                  sense of C15_automaton_stream_partial
+                                  = search A m lo hi: the assembly of C15_block_pruning_sound (proved),
+                                  C15_block_separators (proved) and C15_automaton_stream_partial (proved)
+                                  over the index walk `keptBlocks` + block-id range filter is not done yet
    C15_merge                  : (∀ m ∈ ms, SortedMap m) → kwayMerge comb ms = mergeSpec comb ms
                                   ∧ ordinal tables total and strictly monotone -/
 
@@ -240,6 +333,8 @@ example : SortedMap [(([1] : Key), 10), ([1, 2], 20), ([1, 2, 3], 30), ([2], 40)
   (strictIncB_iff _).mp (by decide)
 example : (build 2 [([1], 10), ([1, 2], 20), ([1, 2, 3], 30), ([2], 40), ([3, 0], 50)]).termOrdOrNext [1, 9] = .next 3
     ∧ (build 2 [([1], 10), ([1, 2], 20), ([1, 2, 3], 30), ([2], 40), ([3, 0], 50)]).termOrdOrNext [9] = .next U64_MAX := by decide
+example : (build 2 [(([1] : Key), 10), ([1, 2], 20), ([1, 2, 3], 30), ([2], 40), ([3, 0], 50)]).sortedOrdsToTerm [0, 0, 2, 3, 4, 7]
+    = ([[1], [1], [1, 2, 3], [2], [3, 0]], false) := by decide
 example : NoEmptyDup none [[], [1], [1, 2]] ∧ ¬ NoEmptyDup none [[], []] := by simp [NoEmptyDup]
 example : writerAccepts 4 [[1], [1, 2], [1, 2, 3], [2]] = true ∧ writerAccepts 4 [[1], [1, 2], [1, 2], [2]] = false := by decide
 
